@@ -467,7 +467,10 @@ func runK7flush(r *rng, n int) {
 				continue
 			}
 			got[tag] = rt
-			if tag == f1 || (chained && tag == f2) || tag == victim {
+			// the flush of the running request and the request itself must not be answered yet; the
+			// chained flush names a Tflush, which runs no backend call: whether it waits depends on
+			// whether that Tflush has registered its tag yet – both orders are legitimate
+			if tag == f1 || tag == victim {
 				early++
 			}
 		}
